@@ -876,6 +876,11 @@ hwloc__xml_import_object(hwloc_topology_t topology,
 	      state->global->msgprefix, hwloc_obj_type_string(obj->type));
     goto error_with_object;
   }
+  /* complete sets are used below and by the core, default to the main sets if missing */
+  if (obj->cpuset && !obj->complete_cpuset)
+    obj->complete_cpuset = hwloc_bitmap_dup(obj->cpuset);
+  if (obj->nodeset && !obj->complete_nodeset)
+    obj->complete_nodeset = hwloc_bitmap_dup(obj->nodeset);
 
   /* check PUs */
   if (obj->type == HWLOC_OBJ_PU) {
